@@ -62,8 +62,8 @@ ASSUMPTIONS = [
 ]
 
 TIERS = {
-    "quick": dict(mc_depth=6, cov_depth=4, sim_inv=400, sim_inv_depth=30, dump_depth=4,
-                  max_walk=120, step_budget=6500, sim_walks=60, sim_depth=18, hist=70, hist_len=24,
+    "quick": dict(mc_depth=6, cov_depth=4, sim_inv=150, sim_inv_depth=30, dump_depth=4,
+                  max_walk=120, step_budget=8000, sim_walks=60, sim_depth=18, hist=70, hist_len=24,
                   tlc_timeout=240),
     "thorough": dict(mc_depth=9, cov_depth=5, sim_inv=20000, sim_inv_depth=40, dump_depth=5,
                      max_walk=200, step_budget=120000, sim_walks=1500, sim_depth=30, hist=1500,
@@ -274,6 +274,7 @@ def exec_walk(world_args, walk: list[dict], stop_on_unfired: bool) -> tuple[dict
         trace = {"init": init, "events": world.log, "cfg": cfg}
     finally:
         world.close()
+        W.refreeze()
     return trace, done, unfired
 
 
@@ -409,6 +410,7 @@ def random_history(world_args, rng: random.Random, length: int) -> dict:
         return {"init": init, "events": world.log, "cfg": cfg}
     finally:
         world.close()
+        W.refreeze()
 
 
 # ------------------------------------------------------------------------------- verdicts
@@ -536,7 +538,7 @@ def main(rep: Report, replay: dict | None) -> None:
         "every edge of the dump instance, simulated deep behaviours, seeded random histories)"
     )
     t0 = time.time()
-    if not replay:
+    if not replay and not os.environ.get("VERIF_C11_NOMC"):  # development aid only
         model_check(rep, T)
     rep.extra["t_model_s"] = round(time.time() - t0, 1)
     server = W.setup(rep.seed)
@@ -581,6 +583,7 @@ def run_all(rep: Report, T: dict, server, stats: Counter) -> None:
     t0 = time.time()
     g = dump_edges(rep, T)
     cover = Cover(g)
+    W.refreeze()
     rep.extra["dump"] = dict(edges=len(g.edges), nodes=g.nodes, inits=len(g.inits))
     steps = 0
     rounds = 0
@@ -635,6 +638,7 @@ def run_all(rep: Report, T: dict, server, stats: Counter) -> None:
     # ---- spec -> code: deep simulated behaviours of the full instance
     t0 = time.time()
     behaviours = sim_behaviours(rep, T)
+    W.refreeze()
     traces = []
     for i, walk in enumerate(behaviours):
         cfg = W.make_config(rng, styles[i % 3])
